@@ -696,6 +696,10 @@ func (repo *Repository) GetHeaders(ctx context.Context,
 	headersFile := -1
 	var headersData []*HeaderData
 	for height := startHeight; ; height++ {
+		if height > repo.longest.Height() {
+			break // beyond tip
+		}
+
 		at := repo.longest.AtHeight(height)
 		if at != nil {
 			result = append(result, at.Header)
